@@ -1383,15 +1383,17 @@ CellIter TopologyKernel::delete_cell_core(CellHandle _h) {
             if (incident_cell_per_hf_[*hf_it] == h)
                 incident_cell_per_hf_[*hf_it] = InvalidCellHandle;
         }
-        std::set<EdgeHandle> edges;
-        for(std::vector<HalfFaceHandle>::const_iterator hf_it = hfs.begin(),
-                hf_end = hfs.end(); hf_it != hf_end; ++hf_it) {
-          const auto& hf = halfface(*hf_it);
-          for (const auto&  heh : hf.halfedges())
-            edges.insert(edge_handle(heh));
+        if(has_edge_bottom_up_incidences()) {
+            std::set<EdgeHandle> edges;
+            for(std::vector<HalfFaceHandle>::const_iterator hf_it = hfs.begin(),
+                    hf_end = hfs.end(); hf_it != hf_end; ++hf_it) {
+              const auto& hf = halfface(*hf_it);
+              for (const auto&  heh : hf.halfedges())
+                edges.insert(edge_handle(heh));
+            }
+            for (auto eh : edges)
+              reorder_incident_halffaces(eh);
         }
-        for (auto eh : edges)
-          reorder_incident_halffaces(eh);
     }
 
     if (deferred_deletion_enabled())
